@@ -7,7 +7,10 @@ package main
 //   - the manager's loop goroutine (protocol/pushpull.go:119) receives from holder.PushTracker().Requests(); the rig
 //     hands the manager a holder wrapper whose PushTracker() is a proxy: Requests() is a rig-owned channel into
 //     which the rig forwards the real tracker's requests one by one ("dlv" event = the moment the manager loop gets
-//     scheduled), and RegisterPull counts calls so the rig knows when the manager loop has finished an item.
+//     scheduled), and RegisterPull counts calls so the rig knows when the manager loop has finished an item;
+//   - several "lanes" (entry type + its own holder + tracker, as the node registers six) hang on ONE manager and ONE
+//     clock, all registered before Run; the goroutines of a lane are recognised by their goroutine ids. Every emitted
+//     pull request is recorded with the push TYPE the manager put on it.
 import (
 	"encoding/binary"
 	"fmt"
@@ -23,7 +26,7 @@ import (
 	"github.com/libp2p/go-libp2p-core/peer"
 )
 
-const c20Type = 4 // pushFlip
+const c20Type = 4 // pushFlip (default lane)
 
 var c20T0 = time.Date(2030, 1, 1, 0, 0, 0, 0, time.UTC)
 
@@ -31,11 +34,11 @@ type proxyTracker struct {
 	real  *pushpull.DefaultPushTracker
 	fwd   chan pushpull.PendingPulls
 	calls int64 // RegisterPull calls completed
-	dead  int32
+	dead  *int32
 }
 
 func (p *proxyTracker) RegisterPull(hash common.Hash128) {
-	if atomic.LoadInt32(&p.dead) != 0 {
+	if atomic.LoadInt32(p.dead) != 0 {
 		runtime.Goexit() // tear-down: ends the manager's loop goroutine
 	}
 	p.real.RegisterPull(hash)
@@ -67,23 +70,37 @@ func (w *wrapHolder) MaxParallelPulls() uint32 {
 
 type c20out struct {
 	Kind string // imm dec fwd
+	Ty   int    // push type on the emitted request (dec: the lane's type, the tracker knows no types)
 	P, H int
 	T    int64
 }
 
-func (o c20out) String() string { return fmt.Sprintf("%s:%d:%d:%d", o.Kind, o.P, o.H, o.T) }
+func (o c20out) String() string { return fmt.Sprintf("%s:%d:%d:%d:%d", o.Kind, o.Ty, o.P, o.H, o.T) }
 
-type rig struct {
+type c20lane struct {
+	Ty    int   `json:"type"`
+	Delay int64 `json:"delay"`
+	Cap   int   `json:"cap"`
+}
+
+type lane struct {
+	typ     uint8
 	tracker *pushpull.DefaultPushTracker
 	holder  pushpull.Holder
 	wrap    *wrapHolder
 	proxy   *proxyTracker
-	mgr     *protocol.PushPullManager
 	fifo    []pushpull.PendingPulls // tracker decisions not yet handed to the manager loop
 	cap     int
 	delay   int64
 	hashes  map[int]bool
-	err     string
+	gids    map[string]int64 // "loop", "gc" -> goroutine id
+}
+
+type rig struct {
+	lanes []*lane
+	mgr   *protocol.PushPullManager
+	dead  int32
+	err   string
 }
 
 func peerOf(p int) peer.ID { return peer.ID(fmt.Sprintf("p%d", p)) }
@@ -102,28 +119,44 @@ func hashOf(h int) common.Hash128 {
 }
 func hashNo(x common.Hash128) int { return int(binary.BigEndian.Uint32(x[:4])) }
 
-func newRig(delayMs int64, capOverride int) (*rig, error) {
+func newRig(cfg []c20lane) (*rig, error) {
 	common.VerifBlockingEnable(c20T0)
-	r := &rig{hashes: map[int]bool{}, delay: delayMs}
-	r.tracker = pushpull.NewDefaultPushTracker(time.Duration(delayMs) * time.Millisecond)
-	r.holder = pushpull.NewDefaultHolder(3, r.tracker) // SetHolder + Run: goroutines loop and gc
-	if !common.VerifBlockingWaitParked(2, 5*time.Second) {
-		return nil, fmt.Errorf("tracker goroutines did not park")
-	}
-	r.proxy = &proxyTracker{real: r.tracker, fwd: make(chan pushpull.PendingPulls)}
-	r.wrap = &wrapHolder{Holder: r.holder, proxy: r.proxy, capOverride: uint32(capOverride)}
-	r.cap = int(r.wrap.MaxParallelPulls())
+	r := &rig{}
 	r.mgr = protocol.NewPushPullManager()
-	r.mgr.VerifAddEntryHolder(c20Type, r.wrap)
-	r.mgr.Run()
+	seen := map[int64]bool{}
+	for i, lc := range cfg {
+		l := &lane{typ: uint8(lc.Ty), delay: lc.Delay, hashes: map[int]bool{}, gids: map[string]int64{}}
+		l.tracker = pushpull.NewDefaultPushTracker(time.Duration(lc.Delay) * time.Millisecond)
+		l.holder = pushpull.NewDefaultHolder(3, l.tracker) // SetHolder + Run: goroutines loop and gc
+		if !common.VerifBlockingWaitParked(2*(i+1), 5*time.Second) {
+			return nil, fmt.Errorf("tracker goroutines did not park")
+		}
+		for _, s := range common.VerifBlockingParked() {
+			if !seen[s.Gid] {
+				seen[s.Gid] = true
+				l.gids[s.Who] = s.Gid
+			}
+		}
+		if l.gids["loop"] == 0 || l.gids["gc"] == 0 {
+			return nil, fmt.Errorf("tracker goroutines not identified: %v", l.gids)
+		}
+		l.proxy = &proxyTracker{real: l.tracker, fwd: make(chan pushpull.PendingPulls), dead: &r.dead}
+		l.wrap = &wrapHolder{Holder: l.holder, proxy: l.proxy, capOverride: uint32(lc.Cap)}
+		l.cap = int(l.wrap.MaxParallelPulls())
+		r.mgr.VerifAddEntryHolder(l.typ, l.wrap)
+		r.lanes = append(r.lanes, l)
+	}
+	r.mgr.Run() // after ALL holders are registered, as in NewIdenaGossipHandler
 	return r, nil
 }
 
 func (r *rig) close() {
-	atomic.StoreInt32(&r.proxy.dead, 1)
-	select {
-	case r.proxy.fwd <- pushpull.PendingPulls{}:
-	case <-time.After(2 * time.Second):
+	atomic.StoreInt32(&r.dead, 1)
+	for _, l := range r.lanes {
+		select {
+		case l.proxy.fwd <- pushpull.PendingPulls{}:
+		case <-time.After(2 * time.Second):
+		}
 	}
 	common.VerifBlockingKillParked()
 }
@@ -133,18 +166,18 @@ func (r *rig) now() int64 { return common.VerifNow().Sub(c20T0).Milliseconds() }
 func (r *rig) drain(kind string) []c20out {
 	var out []c20out
 	for _, q := range r.mgr.VerifDrain() {
-		out = append(out, c20out{kind, peerNo(q.Peer), hashNo(q.Hash), r.now()})
+		out = append(out, c20out{kind, int(q.Type), peerNo(q.Peer), hashNo(q.Hash), r.now()})
 	}
 	return out
 }
 
-func (r *rig) collect() []c20out {
+func (r *rig) collect(l *lane) []c20out {
 	var out []c20out
 	for {
 		select {
-		case q := <-r.tracker.Requests():
-			r.fifo = append(r.fifo, q)
-			out = append(out, c20out{"dec", peerNo(q.Id), hashNo(q.Hash), r.now()})
+		case q := <-l.tracker.Requests():
+			l.fifo = append(l.fifo, q)
+			out = append(out, c20out{"dec", int(l.typ), peerNo(q.Id), hashNo(q.Hash), r.now()})
 		default:
 			return out
 		}
@@ -158,36 +191,41 @@ func (r *rig) exec(e c20ev) (out []c20out) {
 			r.err = fmt.Sprintf("panic %v", x)
 		}
 	}()
+	if e.L < 0 || e.L >= len(r.lanes) {
+		r.err = "bad lane"
+		return nil
+	}
+	l := r.lanes[e.L]
 	switch e.K {
 	case "ann":
-		r.hashes[e.H] = true
-		r.mgr.VerifAddPush(peerOf(e.P), c20Type, hashOf(e.H))
+		l.hashes[e.H] = true
+		r.mgr.VerifAddPush(peerOf(e.P), l.typ, hashOf(e.H))
 		return r.drain("imm")
 	case "arr":
-		r.hashes[e.H] = true
-		r.mgr.VerifAddEntry(c20Type, hashOf(e.H), "item")
+		l.hashes[e.H] = true
+		r.mgr.VerifAddEntry(l.typ, hashOf(e.H), "item")
 	case "exp":
-		pushpull.VerifExpire(r.holder, hashOf(e.H))
+		pushpull.VerifExpire(l.holder, hashOf(e.H))
 	case "fgt":
-		r.mgr.VerifForget(c20Type, hashOf(e.H))
+		r.mgr.VerifForget(l.typ, hashOf(e.H))
 	case "tick":
 		if e.T >= r.now() {
 			common.VerifSetTime(c20T0.Add(time.Duration(e.T) * time.Millisecond))
 		}
 	case "loop", "gc":
-		if common.VerifBlockingRelease(e.K) {
-			if !common.VerifBlockingWaitParked(2, 10*time.Second) {
+		if common.VerifBlockingReleaseGid(l.gids[e.K]) {
+			if !common.VerifBlockingWaitParked(2*len(r.lanes), 10*time.Second) {
 				r.err = "tracker goroutine did not park again (blocked or dead)"
 			}
-			return r.collect()
+			return r.collect(l)
 		}
 	case "dlv":
-		if len(r.fifo) > 0 {
-			q := r.fifo[0]
-			r.fifo = r.fifo[1:]
-			before := atomic.LoadInt64(&r.proxy.calls)
-			r.proxy.fwd <- q
-			for i := 0; atomic.LoadInt64(&r.proxy.calls) == before; i++ {
+		if len(l.fifo) > 0 {
+			q := l.fifo[0]
+			l.fifo = l.fifo[1:]
+			before := atomic.LoadInt64(&l.proxy.calls)
+			l.proxy.fwd <- q
+			for i := 0; atomic.LoadInt64(&l.proxy.calls) == before; i++ {
 				if i < 1000 {
 					runtime.Gosched()
 				} else {
@@ -212,32 +250,42 @@ type c20snap struct {
 	Active  map[common.Hash128]time.Time
 }
 
-func (r *rig) snap() c20snap {
-	return c20snap{Now: r.now(), Pending: r.tracker.VerifPending(), Active: r.tracker.VerifActive()}
+func (r *rig) snap(l *lane) c20snap {
+	return c20snap{Now: r.now(), Pending: l.tracker.VerifPending(), Active: l.tracker.VerifActive()}
 }
 
 func (r *rig) ms(t time.Time) int64 { return t.Sub(c20T0).Milliseconds() }
 
-func (r *rig) sizes() string {
-	n := 0
-	r.tracker.VerifActive()
-	for range r.tracker.VerifActive() {
-		n++
-	}
-	return fmt.Sprintf("P=%d A=%d Q=%d", r.tracker.VerifPendingLen(), n, len(r.fifo))
+func (r *rig) sizes(l *lane) string {
+	return fmt.Sprintf("P=%d A=%d Q=%d", l.tracker.VerifPendingLen(), len(l.tracker.VerifActive()), len(l.fifo))
 }
 
-// stateLine: the full canonical state (everything the model keeps except the peeked object of a sleeping loop).
-func (r *rig) stateLine() string {
+// wakes: virtual wake-up times (ms) of the lane's two goroutines
+func (r *rig) wakes(l *lane) (loop, gc int64) {
+	loop, gc = -1, -1
+	for _, s := range common.VerifBlockingParked() {
+		w := (s.Wake - c20T0.UnixNano()) / int64(time.Millisecond)
+		switch s.Gid {
+		case l.gids["loop"]:
+			loop = w
+		case l.gids["gc"]:
+			gc = w
+		}
+	}
+	return
+}
+
+// stateLine: the lane's full canonical state (everything the model keeps except the peeked object of a sleeping loop).
+func (r *rig) stateLine(l *lane) string {
 	var sb strings.Builder
 	fmt.Fprintf(&sb, "now=%d pend=", r.now())
-	for i, e := range r.tracker.VerifPending() {
+	for i, e := range l.tracker.VerifPending() {
 		if i > 0 {
 			sb.WriteByte(',')
 		}
 		fmt.Fprintf(&sb, "%d:%d:%d", peerNo(e.Id), hashNo(e.Hash), r.ms(e.Time))
 	}
-	act := r.tracker.VerifActive()
+	act := l.tracker.VerifActive()
 	var hs []int
 	for h := range act {
 		hs = append(hs, hashNo(h))
@@ -251,14 +299,14 @@ func (r *rig) stateLine() string {
 		fmt.Fprintf(&sb, "%d:%d", h, r.ms(act[hashOf(h)]))
 	}
 	hs = hs[:0]
-	for h := range r.hashes {
+	for h := range l.hashes {
 		hs = append(hs, h)
 	}
 	sort.Ints(hs)
 	sb.WriteString(" held=")
 	first := true
 	for _, h := range hs {
-		if r.holder.Has(hashOf(h)) {
+		if l.holder.Has(hashOf(h)) {
 			if !first {
 				sb.WriteByte(',')
 			}
@@ -269,7 +317,7 @@ func (r *rig) stateLine() string {
 	sb.WriteString(" cnt=")
 	first = true
 	for _, h := range hs {
-		if c, ok := r.mgr.VerifCounter(c20Type, hashOf(h)); ok {
+		if c, ok := r.mgr.VerifCounter(l.typ, hashOf(h)); ok {
 			if !first {
 				sb.WriteByte(',')
 			}
@@ -278,22 +326,13 @@ func (r *rig) stateLine() string {
 		}
 	}
 	sb.WriteString(" q=")
-	for i, q := range r.fifo {
+	for i, q := range l.fifo {
 		if i > 0 {
 			sb.WriteByte(',')
 		}
 		fmt.Fprintf(&sb, "%d:%d", peerNo(q.Id), hashNo(q.Hash))
 	}
-	lw, gw := int64(-1), int64(-1)
-	for _, s := range common.VerifBlockingParked() {
-		w := (s.Wake - c20T0.UnixNano()) / int64(time.Millisecond)
-		switch s.Who {
-		case "loop":
-			lw = w
-		case "gc":
-			gw = w
-		}
-	}
+	lw, gw := r.wakes(l)
 	fmt.Fprintf(&sb, " loop=%d gc=%d", lw, gw)
 	return sb.String()
 }
